@@ -1,4 +1,5 @@
 import QeepProofs.Index
+import QeepProofs.Slice
 /-!
 # C06 — indexing, reshaping and construction move elements without changing them
 
@@ -122,6 +123,47 @@ theorem eye_get [Scalar α] (n i j : Nat) (hi : i < n) (hj : j < n) :
 example : (⟨[2, 1, 3], [1, 2, 3, 4, 5, 6]⟩ : Tensor Nat).WF ∧
     (⟨[2, 1, 3], [1, 2, 3, 4, 5, 6]⟩ : Tensor Nat).reshapeRaw [3, 2] = some ⟨[3, 2], [1, 2, 3, 4, 5, 6]⟩ := by
   decide
+
+end C06
+end Qeep
+
+namespace Qeep
+namespace C06
+variable {α : Type}
+
+/-- what the validator guarantees about a Slice index, on natural numbers: at most one range per dimension, each
+    either `{0,0}` (whole dimension) or a non-empty half-open range inside the dimension -/
+inductive RangesOK : List (Nat × Nat) → List Nat → Prop
+  | nil (ds) : RangesOK [] ds
+  | cons {f t idx d ds} : ((f = 0 ∧ t = 0) ∨ (f < t ∧ t ≤ d)) → RangesOK idx ds → RangesOK ((f, t) :: idx) (d :: ds)
+
+theorem fits_complete : ∀ {idx ds}, RangesOK idx ds → Fits (completeIndex idx ds) ds
+  | _, [], .nil _ => by simp [completeIndex]; exact .nil
+  | _, d :: ds, .nil _ => by
+    simp only [completeIndex]
+    exact .cons (Nat.le_refl _) (fits_complete (.nil ds))
+  | _, _, .cons (f := f) (t := t) (d := d) h hr => by
+    simp only [completeIndex]
+    split
+    · exact .cons (Nat.le_refl _) (fits_complete hr)
+    · rcases h with h | h
+      · rename_i hne; exact absurd h hne
+      · exact .cons h.2 (fits_complete hr)
+
+/-- **Slice returns the selected block** — for every rank, every mix of explicit, omitted and `{0,0}` ranges:
+    the copy succeeds (no panic), the result has one dimension per source dimension with size `To - From` (the
+    whole size where omitted), and its element at local index `j` is the source element at `j + From`. -/
+theorem slice_get (t : Tensor α) (hwf : t.WF) (index : List (Nat × Nat)) (hok : RangesOK index t.dims) :
+    ∃ data, t.sliceRaw index = some ⟨sliceDims (completeIndex index t.dims), data⟩ ∧
+      data.length = prod (sliceDims (completeIndex index t.dims)) ∧
+      ∀ js, InBlock (completeIndex index t.dims) js →
+        (⟨sliceDims (completeIndex index t.dims), data⟩ : Tensor α).at? js = t.at? (shiftIdx (completeIndex index t.dims) js) := by
+  obtain ⟨out, h1, h2, h3⟩ := sliceData_get (completeIndex index t.dims) t.dims t.data (fits_complete hok) hwf.1
+  exact ⟨out, by simp [Tensor.sliceRaw, h1], h2, h3⟩
+
+/-- non-vacuity: rows 0..2, columns 1..3 of a [2,3] tensor; partial index with an omitted second range -/
+example : (⟨[2, 3], [1, 2, 3, 4, 5, 6]⟩ : Tensor Nat).sliceRaw [(0, 0), (1, 3)] = some ⟨[2, 2], [2, 3, 5, 6]⟩ ∧
+    (⟨[2, 3], [1, 2, 3, 4, 5, 6]⟩ : Tensor Nat).sliceRaw [(1, 2)] = some ⟨[1, 3], [4, 5, 6]⟩ := by decide
 
 end C06
 end Qeep
